@@ -33,7 +33,10 @@ def check(run):
                 # elements of the window (paired +1 / -1 under the same null test)
                 acc.check_acc(run, m, only_count=True)
             pre_subs(run, k)
-        drivers.check_drivers(run, F, rules=('DRV.len', 'DRV.early', 'SEQ.len'))
+        # the counter is only the window's valid count if the driver hands the closure the
+        # element that leaves the window (or the window's first index) at the right step
+        drivers.check_drivers(run, F, rules=('DRV.len', 'DRV.early', 'SEQ.len', 'DRV.args', 'DRV.iter',
+                                             'DRV.cover'))
     return run.finish(
         'other',
         'For every rolling entry point (36 in tea-rolling, 2 in tevec behind `fdiff`): the '
@@ -41,7 +44,8 @@ def check(run):
         'control-dependent on count >= min_periods, the count itself is advanced and retired under '
         'the same null test (ACC rules restricted to the counter), count - j never underflows or divides by '
         'zero inside the gate, variance/skew/kurt clamp to 2/3/4, parameter arithmetic before '
-        'the driver call cannot underflow; drivers produce exactly len outputs. Whether a '
+        'the driver call cannot underflow; drivers produce exactly len outputs and pass the closure '
+        'the leaving element / window start of exactly the window (DRV.args/DRV.iter/DRV.cover, as in C02). Whether a '
         'statistic is "mathematically defined" on a window is a value question and not decided.',
         ASSUME, TRUSTED,
         'instances = (entry point, gate), (entry point, n - j site), (entry point, usize '
